@@ -390,7 +390,12 @@ def _(e, c, a):
     out = []
     for x in deref_vec(a[0]).cells:
         xv = un(x.v)
-        if isinstance(xv, RStr): raise Unmodelled('concat of strings')
+        if isinstance(xv, RStr):
+            cells = deref_vec(a[0]).cells
+            if not all(isinstance(un(y.v), RStr) for y in cells): raise Unmodelled('concat of mixed strings')
+            parts = []
+            for y in cells: parts.extend(str_parts(un(y.v)))
+            return RStr(norm_parts(parts))
         out.extend(Cell(e.clone_value(y.v)) for y in deref_vec(xv).cells)
     return RVec(out)
 
@@ -426,7 +431,22 @@ def _(e, c, a):
     return mk_unit()
 
 
-@model(SLICE + r'binary_search(_by|_by_key)?$')
+@model(SLICE + r'binary_search$')
+def _(e, c, a):
+    # result on a sorted slice with concrete order decisions: Ok(index of an equal element) | Err(insertion point)
+    from .core import compare
+    cells = deref_vec(a[0]).cells; key = un(a[1])
+    key = key.cell.v if isinstance(key, Ref) else key
+    lo = 0
+    for i, cl in enumerate(cells):
+        o = compare(e, cl.v, key)
+        if o == 0: return Ok(i)
+        if o < 0: lo = i + 1
+        else: break
+    return Err(lo)
+
+
+@model(SLICE + r'binary_search(_by|_by_key)$')
 def _(e, c, a): raise Unmodelled(c)
 
 
